@@ -671,6 +671,106 @@ theorem latest_monotone (env : Env) (c : Client) (ops : List (Header × Int)) :
       exact Height.le_trans (update_latest_le env c c' hd now hc') (ih c')
     · exact ih c
 
+/-- The order on heights used everywhere (`Height.max`, the `≤ trusted height` test, the proof-height gate) is the
+    lexicographic order on (revision number, revision height): a lower revision is below a higher one whatever the
+    revision heights are. -/
+theorem Height.lt_lex (a b : Height) :
+    a < b ↔ a.rev < b.rev ∨ (a.rev = b.rev ∧ a.h < b.h) := Iff.rfl
+
+theorem Height.lower_revision_lt (a b : Height) (h : a.rev < b.rev) : a < b := Or.inl h
+
+theorem Height.not_lt_of_le {a b : Height} (h : a ≤ b) : ¬ b < a := by
+  rw [Height.le_iff] at h; rw [Height.lt_iff]; omega
+
+theorem Height.max_cases (a b : Height) :
+    (Height.max a b = a ∧ b ≤ a) ∨ (Height.max a b = b ∧ a < b) := by
+  unfold Height.max
+  by_cases h : a < b
+  · right; rw [if_pos h]; exact ⟨rfl, h⟩
+  · left; rw [if_neg h]
+    refine ⟨rfl, ?_⟩
+    rw [Height.le_iff]; rw [Height.lt_iff] at h; omega
+
+/-- **latest_is_max.** After an accepted update the latest height is the lexicographic maximum of the previous latest
+    height and the header's height: it is one of the two, it is at least both, and it is unchanged whenever the header
+    is not above the previous latest height (back-filling — also of an *older revision* with a numerically larger
+    revision height — never moves it). -/
+theorem latest_is_max (env : Env) (c c' : Client) (hd : Header) (now : Int) (hh : Height)
+    (h : updateClient env c hd now = .ok c') (hhh : headerHeight hd = .ok hh) :
+    c.cs.latest ≤ c'.cs.latest ∧ hh ≤ c'.cs.latest ∧
+    (c'.cs.latest = c.cs.latest ∨ c'.cs.latest = hh) ∧
+    (hh ≤ c.cs.latest → c'.cs.latest = c.cs.latest) ∧
+    (hh.rev < c.cs.latest.rev → c'.cs.latest = c.cs.latest) := by
+  obtain ⟨_, tc, hh', _, hv, _, _, _, hcs⟩ := accept_sound env c c' hd now h
+  have heq : hh' = hh := by
+    have := hv.height_eq
+    rw [hhh] at this; simp only [Outcome.ok.injEq] at this; exact this.symm
+  subst heq
+  have hl : c'.cs.latest = Height.max c.cs.latest hh' := by rw [hcs]
+  rw [hl]
+  refine ⟨Height.le_max_left _ _, Height.le_max_right _ _, ?_, ?_, ?_⟩
+  · rcases Height.max_cases c.cs.latest hh' with ⟨h1, _⟩ | ⟨h1, _⟩
+    · left; exact h1
+    · right; exact h1
+  · intro hle
+    rcases Height.max_cases c.cs.latest hh' with ⟨h1, _⟩ | ⟨_, h2⟩
+    · exact h1
+    · exact absurd h2 (Height.not_lt_of_le hle)
+  · intro hrev
+    rcases Height.max_cases c.cs.latest hh' with ⟨h1, _⟩ | ⟨_, h2⟩
+    · exact h1
+    · rw [Height.lt_iff] at h2; omega
+
+/-! ### histories with upgrades: consensus states of several revisions coexist -/
+
+theorem upgrade_spec (c : Client) (cs : ClientState) (k : ConsState) (now : Int) :
+    (upgradeClient c cs k now).cs = cs ∧
+    lookup cs.latest (upgradeClient c cs k now).st.cons = some k ∧
+    lookup cs.latest (upgradeClient c cs k now).st.ptime = some (toU64 now) ∧
+    ∀ h, h ≠ cs.latest → lookup h (upgradeClient c cs k now).st.cons = lookup h c.st.cons ∧
+                          lookup h (upgradeClient c cs k now).st.ptime = lookup h c.st.ptime := by
+  refine ⟨rfl, lookup_insert_self _ _ _, lookup_insert_self _ _ _, ?_⟩
+  intro h hne
+  exact ⟨lookup_insert_ne _ _ _ _ hne, lookup_insert_ne _ _ _ _ hne⟩
+
+/-- an update step (accepted or rejected), from *any* client state — in particular one whose store holds consensus
+    states of older revisions after an upgrade — never lowers the latest height -/
+theorem step_update_latest_le (env : Env) (c : Client) (hd : Header) (now : Int) :
+    c.cs.latest ≤ (applyStep env c (.update hd now)).cs.latest := by
+  simp only [applyStep]
+  split
+  · rename_i c' hc'; exact update_latest_le env c c' hd now hc'
+  · exact Height.le_refl _
+
+/-- every upgrade of the history installs a latest height that is not below the current one (what an upgrade proposal
+    is for; the keeper does not check it) -/
+def RaisingUpgrades (env : Env) : Client → List Step → Prop
+  | _, [] => True
+  | c, .update hd now :: rest => RaisingUpgrades env (applyStep env c (.update hd now)) rest
+  | c, .upgrade cs k now :: rest => c.cs.latest ≤ cs.latest ∧ RaisingUpgrades env (upgradeClient c cs k now) rest
+
+/-- **latest_monotone_steps.** Over arbitrary histories of update attempts (any headers of any revision, trusted
+    heights in old or new revisions, any clocks) interleaved with upgrades that raise the latest height, the latest
+    height never decreases in the lexicographic order. -/
+theorem latest_monotone_steps (env : Env) (c : Client) (steps : List Step) (h : RaisingUpgrades env c steps) :
+    c.cs.latest ≤ (runSteps env c steps).cs.latest := by
+  induction steps generalizing c with
+  | nil => exact Height.le_refl _
+  | cons s rest ih =>
+    cases s with
+    | update hd now =>
+      simp only [runSteps]
+      exact Height.le_trans (step_update_latest_le env c hd now) (ih _ h)
+    | upgrade cs k now =>
+      simp only [runSteps, applyStep]
+      exact Height.le_trans h.1 (ih _ h.2)
+
+/-- without any assumption on the upgrades: after the last upgrade the latest height only grows -/
+theorem latest_monotone_after_upgrade (env : Env) (c : Client) (cs : ClientState) (k : ConsState) (now : Int)
+    (ups : List (Header × Int)) :
+    cs.latest ≤ (runUpdates env (upgradeClient c cs k now) ups).cs.latest :=
+  latest_monotone env (upgradeClient c cs k now) ups
+
 /-- the configuration of a client (chain id, trust level, periods, delay) is never changed by updates -/
 theorem config_preserved (env : Env) (c : Client) (ops : List (Header × Int)) :
     (runUpdates env c ops).cs = { c.cs with latest := (runUpdates env c ops).cs.latest } := by
@@ -904,6 +1004,29 @@ example : (verifyMembership exEnv (runUpdates exEnv exClient [(exHeader 6 150 5 
 example : (verifyMembership exEnv (runUpdates exEnv exClient [(exHeader 6 150 5 [.commit, .commit, .commit], 200)])
     ⟨0, 6⟩ (some []) [] [] 219).isOk = false := by decide
 example : (verifyMembership exEnv exClient ⟨0, 6⟩ (some []) [] [] 1000).isOk = false := by decide
+
+/-! multi-revision: created at 1-100 (chain "a-1"), upgraded to 2-5 (chain "a-2"), then the old revision is
+    back-filled with 1-101 trusting 1-100: accepted, stored, and the latest height stays 2-5 although 101 > 5 -/
+def exClientR : Client :=
+  upgradeClient (createClient ⟨[97, 45, 49], 1, 3, 1000, 10, ⟨1, 100⟩, 20⟩ ⟨100, [7], [1, 2, 3]⟩ 120)
+    ⟨[97, 45, 50], 1, 3, 1000, 10, ⟨2, 5⟩, 20⟩ ⟨130, [8], [1, 2, 3]⟩ 140
+
+def exHeaderR (chain : Bytes) (h : Int) (t : Int) (trev th : Nat) : Header where
+  sh := ⟨chain, h, t, [1, 2, 3], [1, 2, 3], [9], true, []⟩
+  commit := some (exCommit h [.commit, .commit, .commit])
+  vals := exValSet
+  trustedHeight := ⟨trev, th⟩
+  trustedVals := exValSet
+
+example : (updateClient exEnv exClientR (exHeaderR [97, 45, 49] 101 150 1 100) 200).isOk = true := by decide
+example : (runSteps exEnv exClientR [.update (exHeaderR [97, 45, 49] 101 150 1 100) 200]).cs.latest = ⟨2, 5⟩ ∧
+    (lookup ⟨1, 101⟩ (runSteps exEnv exClientR [.update (exHeaderR [97, 45, 49] 101 150 1 100) 200]).st.cons).isSome = true := by
+  decide
+/-- forward in the new revision with a numerically smaller revision height: latest becomes 2-6 -/
+example : (runSteps exEnv exClientR [.update (exHeaderR [97, 45, 49] 101 150 1 100) 200,
+    .update (exHeaderR [97, 45, 50] 6 160 2 5) 200]).cs.latest = ⟨2, 6⟩ := by decide
+/-- a header of revision 1 cannot be verified against a trusted height of revision 2 -/
+example : (updateClient exEnv exClientR (exHeaderR [97, 45, 49] 101 150 2 5) 200).isOk = false := by decide
 
 end Examples
 
